@@ -188,11 +188,13 @@ type walker struct {
 	// context marks computed before descending
 	writes map[ast.Expr]bool // expression is written at this position
 	skip   map[ast.Expr]bool // expression must not be wrapped (address taken, struct base, ...)
+	mapW   map[*ast.IndexExpr]bool // m[k] is an assignment target
 }
 
 func (w *walker) walkFile(f *ast.File) {
 	w.writes = map[ast.Expr]bool{}
 	w.skip = map[ast.Expr]bool{}
+	w.mapW = map[*ast.IndexExpr]bool{}
 	// pass 1: context marks
 	ast.Inspect(f, func(n ast.Node) bool {
 		switch v := n.(type) {
@@ -200,10 +202,16 @@ func (w *walker) walkFile(f *ast.File) {
 			if v.Tok != token.DEFINE {
 				for _, l := range v.Lhs {
 					w.markWrite(l)
+					if ix, ok := unparen(l).(*ast.IndexExpr); ok {
+						w.mapW[ix] = true
+					}
 				}
 			}
 		case *ast.IncDecStmt:
 			w.markWrite(v.X)
+			if ix, ok := unparen(v.X).(*ast.IndexExpr); ok {
+				w.mapW[ix] = true
+			}
 		case *ast.RangeStmt:
 			if v.Tok == token.ASSIGN {
 				if v.Key != nil {
@@ -254,9 +262,58 @@ func (w *walker) walkFile(f *ast.File) {
 			w.maybeWrapSelector(v)
 		case *ast.Ident:
 			w.maybeWrapGlobal(v)
+		case *ast.IndexExpr:
+			// m[k]: a read (or, as an assignment target, a write) of the map m as a whole - the granularity at which Go
+			// defines map races (any write concurrent with any other access of the same map)
+			if w.isMap(v.X) {
+				w.wrapMap(v.X, w.mapW[v])
+			}
+		case *ast.RangeStmt:
+			if w.isMap(v.X) {
+				w.wrapMap(v.X, false)
+			}
+		case *ast.CallExpr:
+			if id, ok := v.Fun.(*ast.Ident); ok && len(v.Args) > 0 {
+				if _, isBuiltin := w.info.Uses[id].(*types.Builtin); isBuiltin && w.isMap(v.Args[0]) {
+					switch id.Name {
+					case "delete", "clear":
+						w.wrapMap(v.Args[0], true)
+					case "len":
+						w.wrapMap(v.Args[0], false)
+					}
+				}
+			}
 		}
 		return true
 	})
+}
+
+func (w *walker) isMap(e ast.Expr) bool {
+	tv, ok := w.info.Types[e]
+	if !ok || tv.Type == nil {
+		return false
+	}
+	_, is := tv.Type.Underlying().(*types.Map)
+	return is
+}
+
+// wrapMap wraps a map-valued expression m as __vs.MR(m, site) / __vs.MW(m, site): the wrapper reports an access of the map
+// object (its header address) and returns m, so m[k], m[k] = v, range m, delete(m, k), len(m) keep their meaning.
+func (w *walker) wrapMap(e ast.Expr, write bool) {
+	start := w.fset.Position(e.Pos())
+	end := w.fset.Position(e.End())
+	if start.Filename != w.file {
+		return
+	}
+	id := len(*w.sites)
+	*w.sites = append(*w.sites, site{ID: id, File: filepath.Base(w.file), Line: start.Line, Expr: string(w.src[start.Offset:end.Offset]), Field: "map " + string(w.src[start.Offset:end.Offset]), Write: write})
+	fn := "MR"
+	if write {
+		fn = "MW"
+	}
+	span := end.Offset - start.Offset + 1 // outside a field wrapper of the same expression
+	w.inss = append(w.inss, ins{off: start.Offset, text: "__vs." + fn + "(", open: true, depth: span})
+	w.inss = append(w.inss, ins{off: end.Offset, text: fmt.Sprintf(", %d)", id), open: false, depth: span})
 }
 
 func unparen(e ast.Expr) ast.Expr {
